@@ -263,6 +263,9 @@ GRAPHS = {
     "clone": [("CLONE", 0, 0), ("MUL", 0, 2), ("ADD", 3, 1)],
     "side_consumer": [("MUL", 0, 1), ("ADD", 2, 0), ("MUL", 2, 2)],
     "scale_sub": [("SCALE", 0, 0), ("SUB", 2, 1), ("MUL", 3, 3)],
+    # tiny graphs: stay decidable even when a change makes control flow depend on the (symbolic) values
+    "one_mul": [("MUL", 0, 1)],
+    "mul_add": [("MUL", 0, 1), ("ADD", 2, 0)],
 }
 
 
@@ -281,7 +284,7 @@ def _rand_graphs(seed, count, n_nodes, ops=("ADD", "MUL", "SUB", "UMUL", "NEG", 
 
 def c01_instances(tier):
     gi = graph_inst
-    I = [gi("diamond", GRAPHS["diamond"]), gi("selfprod3", GRAPHS["selfprod3"], mode=1),
+    I = [gi("one_mul", GRAPHS["one_mul"], dims=(2,)), gi("diamond", GRAPHS["diamond"]), gi("selfprod3", GRAPHS["selfprod3"], mode=1),
          gi("shared", GRAPHS["shared"], tracked=[True, False]), gi("user_chain", GRAPHS["user_chain"]),
          multiuse_inst([2, 2], [2], 4)]
     if tier == "thorough":
@@ -302,7 +305,7 @@ def c01_instances(tier):
 def c10_instances(tier):
     gi = graph_inst
     I = [gi("diamond", GRAPHS["diamond"], mode=2), gi("diamond", GRAPHS["diamond"], mode=4, mid=2),
-         gi("shared", GRAPHS["shared"], mode=3)]
+         gi("shared", GRAPHS["shared"], mode=3), gi("mul_add", GRAPHS["mul_add"], mode=2)]
     if tier == "thorough":
         for tag in ("chain", "selfprod3", "user_diamond", "untracked_mid", "clone"):
             I.append(gi(tag, GRAPHS[tag], mode=2))
@@ -336,7 +339,7 @@ def c11_instances(tier):
 def c17_instances(tier):
     gi = graph_inst
     I = [gi("diamond", GRAPHS["diamond"], mode=3), gi("selfprod3", GRAPHS["selfprod3"], mode=0, dims=(2,)),
-         gi("scale_sub", GRAPHS["scale_sub"], mode=3)]
+         gi("scale_sub", GRAPHS["scale_sub"], mode=3), gi("one_mul", GRAPHS["one_mul"], mode=0, dims=(2,)), gi("mul_add", GRAPHS["mul_add"], mode=0)]
     if tier == "thorough":
         for tag in ("chain", "shared", "user_diamond", "untracked_mid", "clone", "user_chain"):
             I.append(gi(tag, GRAPHS[tag], mode=3))
